@@ -42,4 +42,10 @@ CHECKS = {
         "text": "For sampled library and generated units x 11 reps, all 8/16-bit values and boundary/NaN/inf/-0.0/denormal/random wider values go through 23 expressions mixing ZERO with the quantity (six comparisons both ways, +, -, +=, -=, construction, assignment, min/max, conversion to every arithmetic type and chrono durations) and are compared with the raw expression; probes check that ZERO is refused for QuantityPoint in 9 syntactic positions (with the Quantity form as control) in several configurations.",
         "note": "Trusted: raw C++ expressions as reference; diagnostics parsing with isolation re-check for the refusal half.",
     },
+    "C08": {
+        "module": ("vf.props.c08", "C08"), "engine": "planeA",
+        "technique": "runtime monitoring: mixed-unit operators executed under sanitizer traps and judged by an exact 128-bit rational oracle; differential C++14/C++20 builds (operator<=>)",
+        "text": "Generated unit pairs with integer, reciprocal and general rational ratios x same-signedness rep pairs: the six comparisons, <=> (C++20 build), +, - and % run on exhaustive 8-bit operands, threshold/equal-magnitude boundaries and random values; every in-domain result is compared with the exact rational order / sum / difference / truncated remainder in the independently spelled common unit; floating reps judged with an ulp budget.",
+        "note": "Trusted: 128-bit oracle in harness/vf_mixed.hh; which pairs compile follows the C06 policy model and is corrected by the compiler's verdict.",
+    },
 }
